@@ -125,11 +125,13 @@ def check_tree(U, d, rec: Rec, cfg):
                     rec.outcome(f"same-id-pair:{a2.id == b2.id}")
                     compare(rec, a2, b2, exp, dict(case, origins_b=list(combo_b), deviates_at=p, route="built-after-detach"), "deviation-same-id")
                     del a2, b2
-        for other in (None, "x", 0, a.id, a.content_id, (a,), zoo.NO_ORIGIN):
+        for other in (None, "x", 0, a.id, a.content_id, (a,), zoo.NO_ORIGIN, EQUAL_TO_ANYTHING, Lookalike(a)):
             rec.count("evaluations")
             try:
                 if (a == other) is not False or (a != other) is not True:
                     rec.violation("C02|non-node|eq", dict(case, other=repr(other)), "comparison with a non-node must be False")
+                if isinstance(other, (AlwaysEqual, Lookalike)) and ([a].count(other) != 0 or other in [a]):
+                    rec.violation("C02|non-node|eq", dict(case, other=repr(other)), "a list holding the node claims to contain a non-node")
             except Exception as e:  # noqa: BLE001
                 rec.violation("C02|non-node|raises", dict(case, other=repr(other)), f"comparison with a non-node raised {type(e).__name__}")
     # every ordered pair of complete assignments over {none, a, b}: origins that MOVE between positions
@@ -187,6 +189,37 @@ class EV(ASTNode):
     w: Any = None
 
 
+class AlwaysEqual:
+    """A non-node whose own __eq__ accepts everything (what unittest.mock.ANY does): node == it must still be False."""
+
+    def __eq__(self, other):
+        return True
+
+    def __ne__(self, other):
+        return False
+
+    __hash__ = None
+
+    def __repr__(self):
+        return "<equal-to-anything>"
+
+
+class Lookalike:
+    """A non-node value object that compares by attributes a node also has."""
+
+    def __init__(self, n):
+        self.id, self.content_id, self.origin = n.id, n.content_id, n.origin
+
+    def __eq__(self, other):
+        return getattr(other, "id", None) == self.id and getattr(other, "content_id", None) == self.content_id
+
+    __hash__ = None
+
+    def __repr__(self):
+        return "<lookalike value object>"
+
+
+EQUAL_TO_ANYTHING = AlwaysEqual()
 LOOKALIKES = [0, False, 0.0, 1, True, 1.0, "", "0", None, (), (0,), (False,), (0.0,), (1, 0), (True, False), frozenset(), frozenset({0}), frozenset({False}),
               frozenset({1}), frozenset({1.0})]
 
